@@ -18,6 +18,8 @@
 //!     parameters and with pairs whose product is exactly the identity -> fill / layers / colr glyph;
 //!  K. every colour glyph of every bundled COLR font, unmodified, with and without the provided
 //!     default `fill_glyph` (the real one: `RecDefault` does not override it);
+//!  L. truncation: for each of the 32 paint formats, rooted directly and below a PaintTranslate, every
+//!     prefix of the compiled table, and the record moved to the table end with 0..=4 bytes missing;
 //!  I. fonts where glyph 1 has both a COLR v0 record and a v1 paint, painted via get(), v1 and v0;
 //!  C. COLR v0 base glyph / layer records incl. out-of-range ranges;
 //!  D. chains of depth 63, 64, 65 and 1000 for every unary kind, both composite operands, layer chains
@@ -1160,6 +1162,10 @@ fn body(run: &Run, replay: Option<&Value>) {
     family_corpus_baseline(run);
     eprintln!("[c13] K done at {:.1}s", run.elapsed());
 
+    // L: truncated tables for every paint format
+    family_truncation(run);
+    eprintln!("[c13] L done at {:.1}s", run.elapsed());
+
     // H: degenerate gradient geometry and colour lines ("returns and is balanced" only)
     family_gradients(run);
     eprintln!("[c13] H done at {:.1}s", run.elapsed());
@@ -1338,6 +1344,205 @@ fn family_corpus_baseline(run: &Run) {
     run.count("K.colour_glyphs", glyphs.load(Ordering::Relaxed));
 }
 
+
+// ---------------------------------------------------------------------------
+// family L: truncation. For every paint format 1..=32 a small COLR v1 table (compiled by write-fonts)
+// in which glyph 1's paint is of that format (directly, and below a PaintTranslate) is painted
+//  (a) for every prefix length of the table (so every record of the table, the target paint, its colour
+//      line / affine matrix / children, is cut at every byte), and
+//  (b) with a copy of the target record appended as the very last object, the referring offset moved
+//      to it, and the last 0..=4 bytes of that copy missing.
+// Oracle: no panic, Ok only with a well-nested stream, bounded callbacks.
+// ---------------------------------------------------------------------------
+
+/// (format number, record size in bytes, root node, extra base glyph 2, layers)
+fn format_table() -> Vec<(u8, usize, Node, Option<Node>, Vec<Node>)> {
+    let solid = || Node::Fill(Fill::Solid);
+    let un = |u: Un| Node::Unary(u, Box::new(solid()));
+    let mut v: Vec<(u8, usize, Node, Option<Node>, Vec<Node>)> = vec![
+        (1, 6, Node::ColrLayers(0, 1), None, vec![solid()]),
+        (2, 5, solid(), None, vec![]),
+        (3, 9, Node::Fill(Fill::VarSolid), None, vec![]),
+        (4, 16, Node::Fill(Fill::Linear), None, vec![]),
+        (5, 20, Node::Fill(Fill::VarLinear), None, vec![]),
+        (6, 16, Node::Fill(Fill::Radial), None, vec![]),
+        (7, 20, Node::Fill(Fill::VarRadial), None, vec![]),
+        (8, 12, Node::Fill(Fill::Sweep), None, vec![]),
+        (9, 16, Node::Fill(Fill::VarSweep), None, vec![]),
+        (10, 6, un(Un::Glyph), None, vec![]),
+        (11, 3, Node::ColrGlyph(2), Some(solid()), vec![]),
+    ];
+    let unary: [(u8, usize, Un); 20] = [
+        (12, 7, Un::Transform),
+        (13, 7, Un::VarTransform),
+        (14, 8, Un::Translate),
+        (15, 12, Un::VarTranslate),
+        (16, 8, Un::Scale),
+        (17, 12, Un::VarScale),
+        (18, 12, Un::ScaleAroundCenter),
+        (19, 16, Un::VarScaleAroundCenter),
+        (20, 6, Un::ScaleUniform),
+        (21, 10, Un::VarScaleUniform),
+        (22, 10, Un::ScaleUniformAroundCenter),
+        (23, 14, Un::VarScaleUniformAroundCenter),
+        (24, 6, Un::Rotate),
+        (25, 10, Un::VarRotate),
+        (26, 10, Un::RotateAroundCenter),
+        (27, 14, Un::VarRotateAroundCenter),
+        (28, 8, Un::Skew),
+        (29, 12, Un::VarSkew),
+        (30, 12, Un::SkewAroundCenter),
+        (31, 16, Un::VarSkewAroundCenter),
+    ];
+    for (f, s, u) in unary {
+        v.push((f, s, un(u), None, vec![]));
+    }
+    v.push((32, 8, Node::Composite(Box::new(solid()), Box::new(solid())), None, vec![]));
+    v
+}
+
+fn be32(b: &[u8], at: usize) -> usize {
+    u32::from_be_bytes([b[at], b[at + 1], b[at + 2], b[at + 3]]) as usize
+}
+fn be24(b: &[u8], at: usize) -> usize {
+    ((b[at] as usize) << 16) | ((b[at + 1] as usize) << 8) | b[at + 2] as usize
+}
+
+/// font whose COLR table is exactly `colr`
+fn font_with_colr(colr: &[u8]) -> Vec<u8> {
+    let head = write_fonts::tables::head::Head { units_per_em: 1000, ..Default::default() };
+    let mut b = write_fonts::FontBuilder::new();
+    b.add_table(&head).unwrap();
+    b.add_raw(font_types::Tag::new(b"COLR"), colr.to_vec());
+    b.build()
+}
+
+/// paint glyph 1 of a font with that COLR table under both cache answers; reports violations
+fn judge_raw(run: &Run, colr: &[u8], case: &Value, acc: &mut Acc) {
+    let font = font_with_colr(colr);
+    for cache_ok in [false, true] {
+        acc.runs += 1;
+        let mut case = case.clone();
+        case["cache_ok"] = json!(cache_ok);
+        match paint(&font, 1, None, &[], cache_ok, true, 10_000) {
+            Ok(p) => {
+                run.trans(p.events.len() as u64 + 1);
+                match &p.result {
+                    Some(Ok(())) => {
+                        acc.ok += 1;
+                        if let Err(why) = dyck(&p.events) {
+                            run.violation(&format!("ColorGlyph::paint Ok with unbalanced callbacks: {why}"), &format!("truncated COLR {case}: {:?}", p.events), case.clone());
+                        }
+                    }
+                    Some(Err(_)) => acc.err += 1,
+                    None => {}
+                }
+                let d = digest_of(&("trunc", case["format"].as_u64(), case["wrapped"].as_bool(), case["mode"].as_str(), p.result.as_ref().map(|r| r.is_ok()), &p.events, colr.len()));
+                acc.all.insert(d);
+                if dyck(&p.events).map(|n| n > 0).unwrap_or(false) {
+                    acc.nontrivial.insert(d);
+                }
+            }
+            Err(pi) if pi.message == LIMIT_MSG => run.violation("ColorGlyph::paint emits more callbacks than the paint graph has root paths", &format!("truncated COLR {case}"), case.clone()),
+            Err(pi) => run.violation(
+                &format!("ColorGlyph::paint panic: {} in {}", pi.kind(), pi.site()),
+                &format!("truncated COLR {case} ({} bytes, hex {}): {} at {}:{}", colr.len(), hex(colr), pi.message, pi.file, pi.line),
+                case.clone(),
+            ),
+        }
+    }
+}
+
+/// one (format, wrapped, var_store) table: returns (table bytes, position of the referring offset field,
+/// its width (4 or 3), base the offset is relative to, position of the target record)
+fn truncation_table(fmt: u8, wrapped: bool, var_store: bool) -> Result<(Vec<u8>, usize, usize, usize, usize, usize), String> {
+    let (_, size, node, base2, layers) = format_table().into_iter().find(|e| e.0 == fmt).ok_or("format")?;
+    let root = if wrapped { Node::Unary(Un::Translate, Box::new(node)) } else { node };
+    let mut bases = vec![root];
+    if let Some(b2) = base2 {
+        bases.push(b2);
+    }
+    let g = Graph { bases, layers, clip: false, var_store, v0: None };
+    let bytes = write_fonts::dump_table(&build_colr(&g)).map_err(|e| format!("{e:?}"))?;
+    let blist = be32(&bytes, 14);
+    // record 0 of the BaseGlyphList is glyph 1: glyph id u16, paint offset u32
+    let field = blist + 4 + 2;
+    let p0 = blist + be32(&bytes, field);
+    let (field, width, base, p) = if wrapped {
+        // PaintTranslate: format u8, paint Offset24 ...
+        (p0 + 1, 3, p0, p0 + be24(&bytes, p0 + 1))
+    } else {
+        (field, 4, blist, p0)
+    };
+    if bytes.get(p) != Some(&fmt) {
+        return Err(format!("expected a paint of format {fmt} at {p}, found {:?}", bytes.get(p)));
+    }
+    Ok((bytes, field, width, base, p, size))
+}
+
+fn run_truncation(run: &Run, fmt: u8, wrapped: bool, var_store: bool, acc: &mut Acc) -> u64 {
+    let (bytes, field, width, base, p, size) = match truncation_table(fmt, wrapped, var_store) {
+        Ok(t) => t,
+        Err(e) => {
+            run.machinery_error(&format!("truncation family, format {fmt}: {e}"));
+            return 0;
+        }
+    };
+    let mut n = 0;
+    // (a) every prefix
+    for len in 0..=bytes.len() {
+        let case = json!({"kind":"truncation","format":fmt,"wrapped":wrapped,"var_store":var_store,"mode":"prefix","len":len,"record_at":p,"record_size":size});
+        judge_raw(run, &bytes[..len], &case, acc);
+        n += 1;
+    }
+    // (b) the record as the last object, 0..=4 trailing bytes missing
+    let mut moved = bytes.clone();
+    let copy_at = moved.len();
+    let rec: Vec<u8> = bytes[p..(p + size).min(bytes.len())].to_vec();
+    moved.extend_from_slice(&rec);
+    let rel = copy_at - base;
+    if width == 4 {
+        moved[field..field + 4].copy_from_slice(&(rel as u32).to_be_bytes());
+    } else {
+        moved[field..field + 3].copy_from_slice(&(rel as u32).to_be_bytes()[1..]);
+    }
+    for missing in 0..=4usize.min(size) {
+        let case = json!({"kind":"truncation","format":fmt,"wrapped":wrapped,"var_store":var_store,"mode":"moved","missing":missing,"record_size":size});
+        judge_raw(run, &moved[..moved.len() - missing], &case, acc);
+        n += 1;
+    }
+    n
+}
+
+fn family_truncation(run: &Run) {
+    let formats = format_table();
+    run.bound(
+        "L.truncation",
+        json!({"paint_formats": formats.iter().map(|f| f.0).collect::<Vec<_>>(), "record_sizes": formats.iter().map(|f| f.1).collect::<Vec<_>>(), "rooted": ["directly", "below PaintTranslate"],
+               "variation_store": "absent; for variable formats also present", "a": "every prefix length 0..=len of the compiled table", "b": "record copied to the end of the table, referring offset moved, last 0..=4 bytes missing",
+               "cache_answers": [false, true]}),
+    );
+    let mut jobs = vec![];
+    for (f, _, node, _, _) in &formats {
+        let var = uses_var(node);
+        for wrapped in [false, true] {
+            jobs.push((*f, wrapped, false));
+            if var {
+                jobs.push((*f, wrapped, true));
+            }
+        }
+    }
+    let total = AtomicU64::new(0);
+    jobs.par_iter().for_each(|(f, wrapped, vs)| {
+        let mut acc = Acc::new();
+        let n = run_truncation(run, *f, *wrapped, *vs, &mut acc);
+        total.fetch_add(n, Ordering::Relaxed);
+        flush(run, acc, "L");
+    });
+    run.count("L.tables", jobs.len() as u64);
+    run.count("L.truncated_tables", total.load(Ordering::Relaxed));
+}
+
 fn family_gradients(run: &Run) {
     let stops = grad_stop_lists().len() as u8;
     let mut specs = vec![];
@@ -1509,6 +1714,11 @@ fn replay_case(run: &Run, case: &Value) {
             println!("replay: {o}");
         }
         "glyph_chain_timing" => glyph_chain_timing(run),
+        "truncation" => {
+            let mut acc = Acc::new();
+            let n = run_truncation(run, case["format"].as_u64().unwrap_or(2) as u8, case["wrapped"].as_bool().unwrap_or(false), case["var_store"].as_bool().unwrap_or(false), &mut acc);
+            println!("replay: {n} truncated tables of that format painted, ok={} err={}", acc.ok, acc.err);
+        }
         "corpus" => {
             let rel = case["font"].as_str().unwrap_or("");
             let gid = case["gid"].as_u64().unwrap_or(0) as u32;
